@@ -18,6 +18,12 @@ pub fn cache_name_of(content : &[u8]) -> String
     enc62_ref(&BigUint::from_bytes_le(&sha256_ref(content)))
 }
 
+/// short text form of a ticket given as raw bytes (diagnostics)
+pub fn cache_name_of_ticket(ticket : &[u8]) -> String
+{
+    enc62_ref(&BigUint::from_bytes_le(ticket)).chars().take(8).collect()
+}
+
 #[derive(Clone)]
 pub struct HistParams
 {
@@ -299,16 +305,24 @@ pub fn monitor_invocation(out : &mut Out, tr : &mut Tracker, inv : &Invocation, 
                         let mut sorted_targets = r.targets.clone();
                         sorted_targets.sort();
                         let mut obliged = true;
+                        let mut obliged_literally = true;
                         for (t, o) in sorted_targets.iter().zip(outs.iter())
                         {
                             if files_before.get(t) == Some(o) { continue; }
                             let available = cache_before.iter().any(|c| c == o);
                             let contested = wanted.iter().filter(|w| *w == o).count() > 1;
                             if !available || contested { obliged = false; }
+                            if !available { obliged_literally = false; }
                         }
                         if obliged && ran.contains_key(i)
                         {
                             out.violation("C02:unnecessary-rebuild", format!("rule {:?} was already built from identical sources and its outputs were in place or in the cache, yet its command ran", r.targets), replay());
+                        }
+                        else if obliged_literally && ran.contains_key(i)
+                        {
+                            // the literal reading of C02: the output IS in the cache when the build starts, but another target
+                            // wants the same (byte-identical) cache entry and a restore moves it out — a known finding
+                            out.violation("C02:revert-reruns-byte-identical-outputs", format!("rule {:?} was already built from identical sources and its earlier output was in the cache when the build started, yet its command ran: another target with byte-identical content took the one cache entry", r.targets), replay());
                         }
                     }
                 }
@@ -507,7 +521,25 @@ pub fn run_history(out : &mut Out, rng : &mut Rng, params : &HistParams, label :
         let existing_targets : Vec<String> = targets.iter().filter(|t| disk.files.contains_key(*t)).cloned().collect();
         let cache_entries : Vec<String> = disk.files.keys().filter_map(|p| p.strip_prefix(&cache_prefix()).map(|s| s.to_string())).collect();
         let hist_files : Vec<String> = disk.files.keys().filter_map(|p| p.strip_prefix(&history_prefix()).map(|s| s.to_string())).collect();
-        let goal = |rng : &mut Rng| -> Option<String> { if targets.is_empty() || rng.chance(1, 2) { None } else { Some(rng.pick(&targets).clone()) } };
+        // a goal is mostly a declared target; one in eight is NOT one (a prefix of a target's name, a target's name
+        // with a trailing slash, a leaf, a name that occurs nowhere): ruler must refuse it and touch nothing
+        let leaves_now : Vec<String> = source_pool.iter().cloned().collect();
+        let goal = |rng : &mut Rng| -> Option<String>
+        {
+            if targets.is_empty() || rng.chance(1, 2) { return None; }
+            if rng.chance(1, 8)
+            {
+                let t = rng.pick(&targets).clone();
+                return Some(match rng.below(4)
+                {
+                    0 => format!("{}/", t),
+                    1 => t.chars().take(std::cmp::max(1, t.chars().count() / 2)).collect(),
+                    2 => if leaves_now.is_empty() { "nosuch".to_string() } else { rng.pick(&leaves_now).clone() },
+                    _ => "nosuch".to_string(),
+                });
+            }
+            Some(rng.pick(&targets).clone())
+        };
         let roll = if step == 0 { 0 } else { rng.below(100) };
         let op : Op =
         if roll < 34 { Op::Build(goal(rng)) }
